@@ -20,7 +20,8 @@ RULE = ("a simulated node with a generated forked chain, a pending pool (2 admit
         "edits -- and random bytes; delivered under drawn fragmentation, followed by manager steps. Oracle: nothing escapes "
         "handle_remote_peer_selector_event / step_managers; chain state is the same object (or gained only blocks that pass "
         "the reference structural rules: outside this property's domain, counted), pool equal, store rows and write buffer "
-        "unchanged; each bystander still registered, greeted, with unchanged queued bytes and still answered afterwards; only "
+        "unchanged; each bystander still registered, greeted, with unchanged queued bytes and still answered afterwards, and a "
+        "new valid block delivered by a bystander after the attack is adopted; only "
         "the attacker's connection may be closed. non-trivial = stream that decodes at least one frame and then fails, or is "
         "rejected inside a handler (not just at the magic); distinct = digest of the stream.")
 ASSUMPTIONS = ["simnet models the transport", "test configuration (fast scrypt stand-in, checkpoints off)",
@@ -72,6 +73,14 @@ class Universe:
         self.bad_blocks.append(blk)
         blk = w.build_block({"label": "orph", "parent": head_label, "miner": 1, "dt": 60, "txs": [], "hdr": {"prev": "unknown"}})
         self.bad_blocks.append(blk)
+        # a NEW valid block on the head (unknown to the node) and copies of it with a corrupted body under the genuine header
+        self.next = w.build_block({"label": "next", "parent": head_label, "miner": 3, "dt": w.safe_dt(head, 45), "txs": []})
+        self.next_corrupt = []
+        for k in range(3):
+            cb = self.next.txs[0]
+            alt = R.RTx(list(cb.ins), [(cb.outs[0][0] - k, KEYS[(4 + k) % len(KEYS)].pub)])
+            c = R.RBlock(self.next.height, self.next.prev, self.next.merkle, self.next.ts, self.next.target, self.next.nonce, self.next.ev, [alt])
+            self.next_corrupt.append(c)
         self.dir = env.fresh_subdir("c20")
         self.new_store()
 
@@ -90,6 +99,16 @@ class Universe:
         return (tuple(rows), len(self.store.write_buffer))
 
 
+class RawMessage:
+    """a message given as raw bytes (unknown message / data types with arbitrary type bytes)"""
+
+    def __init__(self, raw):
+        self.raw = raw
+
+    def serialize(self):
+        return self.raw
+
+
 def templates(u, M, rnd, wire):
     """valid traffic (no legitimate state change in it)"""
     b = u.b
@@ -102,8 +121,12 @@ def templates(u, M, rnd, wire):
         lambda: M.GetDataMessage(rnd.choice([M.DATA_BLOCK, M.DATA_BLOCK, M.DATA_TRANSACTION, M.DATA_HEADER]), rnd.choice(known_ids + [b"\x07" * 32])),
         lambda: M.DataMessage(M.DATA_BLOCK, b.to_sk_block(rnd.choice(u.known))),
         lambda: M.DataMessage(M.DATA_BLOCK, b.to_sk_block(rnd.choice(u.bad_blocks))),
+        lambda: M.DataMessage(M.DATA_BLOCK, b.to_sk_block(rnd.choice(u.next_corrupt))),
         lambda: M.DataMessage(M.DATA_TRANSACTION, b.to_sk_tx(rnd.choice(u.pool_txs + u.bad_txs))),
         lambda: M.DataMessage(M.DATA_HEADER, b.to_sk_block(rnd.choice(u.known)).header),
+        lambda: RawMessage(M.MSG_DATA + b"\x00" + bytes([rnd.randrange(256), rnd.randrange(256)]) + bytes(rnd.randrange(256) for _ in range(rnd.randrange(0, 40)))),
+        lambda: RawMessage(bytes([0, rnd.randrange(7, 256)]) + b"\x00" + bytes(rnd.randrange(256) for _ in range(rnd.randrange(0, 40)))),
+        lambda: RawMessage(M.MSG_GET_DATA + b"\x00" + bytes([rnd.randrange(256), rnd.randrange(256)]) + rnd.choice(known_ids)),
         lambda: M.GetPeersMessage(),
         lambda: M.PeersMessage([M.Peer(rnd.randrange(1 << 32), IPv6Address(rnd.choice(["::ffff:10.1.1.1", "::1", "2001:db8::1"])), rnd.choice([0, 2412, 65535])) for _ in range(rnd.randrange(0, 3))]),
     ]
@@ -153,7 +176,7 @@ def corrupt(rnd, frames):
                 f[4:8] = struct.pack(">I", rnd.choice([0, 1, len(f) - 9, len(f), (1 << 25) + 1, 0xFFFFFFFF]))
         elif k == 8 and len(f) > 8 + 45 + 2:
             off = 8 + 45                                     # message type / version / data type bytes
-            f[off + rnd.randrange(min(5, len(f) - off))] = rnd.choice([0, 1, 7, 9, 255])
+            f[off + rnd.randrange(min(5, len(f) - off))] = rnd.choice([0, 1, 7, 9, 255, 0x25, 0x7B, 0x5C, rnd.randrange(256)])
         elif k == 9 and len(f) > 8 + 17:
             f[8 + 9:8 + 13] = struct.pack(">I", rnd.choice([0, 1, 5, 10000, 0xFFFFFFFF]))   # in_response_to
         frames[i] = bytes(f)
@@ -256,6 +279,15 @@ def one_case(u, rnd, res, M, record=None):
             res.fail("bystander", "bystander-not-served", "a bystander's request is no longer answered after the attack", case)
     if net.escaped and not res.failures:
         res.fail("escape", "exception-escaped-late", net.escaped[0][1], case)
+    # and a NEW valid block delivered by a bystander afterwards is still adopted (the attack must not have poisoned anything)
+    if rnd.random() < 0.35 and after["cs"] == before["cs"]:
+        w = by[0]
+        simnet.CLOCK.now = max(simnet.CLOCK.now, u.next.ts)
+        w.send(M.DataMessage(M.DATA_BLOCK, u.b.to_sk_block(u.next)))
+        w.deliver()
+        res.count("bystander_delivers_new_block_after_attack")
+        if node.cm.coinstate.current_chain_hash != u.next.id():
+            res.fail("bystander", "valid-block-from-bystander-refused-after-attack", "after the attacker's input a NEW valid block delivered by a well-behaved peer is not adopted", case)
     return case
 
 
